@@ -170,6 +170,32 @@ CodeHitl(g) == IF Dev_HitlExactClass
 KF_HitlSubclassOnly(g) == Hitl(g) /\ "IR" \notin Produced(g) /\ "HR" \notin Consumed(g)
 
 \* ------------------------------------------------------------------ what TLC checks per graph
+\* ------------------------------------------------------------------ representation/build.py
+(* get_workflow_representation(workflow): the graph drawn for a workflow.  Nodes: one per step, one per event class   *)
+(* that some step accepts or returns (an accepted base StopEvent is left out unless it is the workflow's stop event),  *)
+(* and "external_step" as soon as a step returns an InputRequiredEvent class.  Edges, one per occurrence in a step's    *)
+(* signature: step -> returned class, accepted class -> step, returned InputRequired class -> external_step, and        *)
+(* external_step -> accepted HumanResponse class (only when the external node exists).  Compared for graphs with at     *)
+(* most one stop class (the code takes "the first one" in definition order otherwise).                                  *)
+ReprExternal(g) == \E c \in Produced(g) : IsIR(c)
+ReprEventNodes(g) == (Consumed(g) \ (IF StopTypes(g) = {"Stop"} THEN {} ELSE {"Stop"})) \cup Produced(g)
+ReprNodeIds(g) == Names(g) \cup ReprEventNodes(g) \cup (IF ReprExternal(g) THEN {"external_step"} ELSE {})
+ReprEdgeSet(g) ==
+  LET retE == UNION {{<<s, r, 1>> : r \in g.steps[s].ret} : s \in Names(g)}
+      accE == UNION {{<<e, s, 1>> : e \in g.steps[s].acc} : s \in Names(g)}
+      irE == {<<r, "external_step", Cardinality({s \in Names(g) : r \in g.steps[s].ret})>> : r \in {c \in Produced(g) : IsIR(c)}}
+      hrE == IF ReprExternal(g)
+             THEN {<<"external_step", e, Cardinality({s \in Names(g) : e \in g.steps[s].acc})>> : e \in {c \in Consumed(g) : IsHR(c)}}
+             ELSE {}
+  IN retE \cup accE \cup irE \cup hrE
+\* a drawn edge joins two drawn nodes -- for every workflow validate() accepts (an unvalidated class that accepts the
+\* base StopEvent next to its own stop class gets an edge from a node that is not drawn: sanity configuration)
+ReprClosed(g) == \A e \in ReprEdgeSet(g) : e[1] \in ReprNodeIds(g) /\ e[2] \in ReprNodeIds(g)
+Thm_ReprClosed(g) == (CodeOutcome(g) = "ok") => ReprClosed(g)
+\* every step that takes part in human-in-the-loop is drawn next to the external node
+Thm_ReprExternal(g) == (CodeOutcome(g) = "ok" /\ ReprExternal(g)) =>
+                          \A c \in Consumed(g) : IsHR(c) => \E e \in ReprEdgeSet(g) : e[1] = "external_step" /\ e[2] = c
+
 Thm_AcceptIffWellFormed(g) == (CodeOutcome(g) = "ok") <=> WellFormed(g)
 Thm_HitlStrict(g) == CodeOutcome(g) = "ok" => CodeHitl(g) = Hitl(g)
 Thm_HitlFaithful(g) == CodeOutcome(g) = "ok" => (CodeHitl(g) = Hitl(g) \/ (KF_HitlSubclassOnly(g) /\ ~CodeHitl(g)))
